@@ -40,7 +40,6 @@ func C11(r *core.Run) {
 	positionsCoverConsumed(r)
 	errorListDiscipline(r)
 	lexerPositions(r)
-	parserDepthGuards(r)
 }
 
 // C19 — editor format edits are well-formed and equal the formatter.
